@@ -610,3 +610,76 @@ func semaphorePaired(p *an.Prog, snd *ssa.Send, key string) bool {
 	}, nil)
 	return ok
 }
+
+// leafMutex reports whether the mutex identified by key is a leaf lock everywhere in the module: each of its
+// critical sections (from the Lock to the Unlock of the same function, or to the function's end when the unlock
+// is deferred) is released on every path and contains no call at all besides the unlock itself and calls of
+// sync/atomic — nothing can block or run for long while it is held, and it cannot take part in a lock cycle.
+func leafMutex(p *an.Prog, key string) bool {
+	if key == "" {
+		return false
+	}
+	n := 0
+	for _, fn := range p.Funcs {
+		if !an.InModule(fn) {
+			continue
+		}
+		for _, op := range an.BlockingOps(fn) {
+			if (op.Kind != "lock" && op.Kind != "rlock") || groupKey(op.OnVal) != key {
+				continue
+			}
+			n++
+			released, _ := an.OnAllPathsToExit(op.Instr, func(x ssa.Instruction) bool { return an.IsUnlockOf(x, op) }, nil)
+			if !released {
+				return false
+			}
+			leaf := true
+			an.EachInstr(fn, func(x ssa.Instruction) {
+				ci, ok := x.(ssa.CallInstruction)
+				if !ok || x == op.Instr || !an.Dominates(op.Instr, x) || an.IsUnlockOf(x, op) {
+					return
+				}
+				if _, isB := ci.Common().Value.(*ssa.Builtin); isB {
+					return
+				}
+				if strings.HasPrefix(an.ShortCallee(ci.Common()), "sync/atomic.") {
+					return
+				}
+				// after a direct unlock the section is over
+				over := false
+				an.EachInstr(fn, func(u ssa.Instruction) {
+					if _, isDefer := u.(*ssa.Defer); !isDefer && an.IsUnlockOf(u, op) && an.Dominates(op.Instr, u) && an.Dominates(u, x) {
+						over = true
+					}
+				})
+				if !over {
+					leaf = false
+				}
+			})
+			if !leaf {
+				return false
+			}
+		}
+	}
+	return n > 0
+}
+
+// heldLock returns the key of a mutex that is held at instruction at: a Lock of the same function dominates it and
+// no direct Unlock of that acquisition lies between.
+func heldLock(fn *ssa.Function, at ssa.Instruction) (string, ssa.Value) {
+	for _, op := range an.BlockingOps(fn) {
+		if (op.Kind != "lock" && op.Kind != "rlock") || !an.Dominates(op.Instr, at) {
+			continue
+		}
+		over := false
+		an.EachInstr(fn, func(u ssa.Instruction) {
+			if _, isDefer := u.(*ssa.Defer); !isDefer && an.IsUnlockOf(u, op) && an.Dominates(op.Instr, u) && an.Dominates(u, at) {
+				over = true
+			}
+		})
+		if !over {
+			return groupKey(op.OnVal), op.OnVal
+		}
+	}
+	return "", nil
+}
